@@ -45,3 +45,16 @@ Proof. reflexivity. Qed.
 From SymfcG Require Import ShapesSpg ShapesGeom.
 Theorem c10_recorded_sources_in_force : ShapesSpg_as_recorded = true /\ ShapesGeom_as_recorded = true.
 Proof. repeat split; reflexivity. Qed.
+
+(** Auxiliary code on this property's path is the recorded source (the representation classes of orders 1-4 (constructors, r_reps, the sigma representations), the accessors of SpgRepsBase, position rounding and the SymfcAtoms container):
+    whole-function match, regenerated on every run. *)
+From SymfcG Require Import ShapesReps.
+Theorem c10_recorded_sources3_in_force : ShapesReps_as_recorded = true.
+Proof. repeat split; reflexivity. Qed.
+
+(** What the modules on this property's path consist of besides the function bodies is the recorded one: every signature with its
+    defaults and keyword-only arguments, decorators, class bases, method lists and module-level statements (imports, constants) --
+    regenerated on every run. *)
+From SymfcG Require Import SkelSpg SkelCut.
+Theorem c10_module_skeletons_in_force : SkelSpg_as_recorded = true /\ SkelCut_as_recorded = true.
+Proof. repeat split; reflexivity. Qed.
